@@ -61,6 +61,14 @@ def main():
         any_ = bool(r["caught_by"])
         caught += 1 if any_ else 0
         print("%-7s %s own-check=%s  by=%s %s" % (r["seed"], "CAUGHT" if any_ else "missed", own, ",".join(sorted(r["caught_by"])), ("ERR " + "; ".join(r["errors"])) if r["errors"] else ""))
+        if os.environ.get("SWEEP_SHOW"):
+            shown = set()
+            for p, msgs in sorted(r["caught_by"].items()):
+                for m in msgs:
+                    k = m.split(": ", 1)[-1]
+                    if k not in shown:
+                        shown.add(k)
+                        print("      [%s] %s" % (p, m))
     print("%d/%d seeded changes reported by at least one check" % (caught, len(results)))
     if not sys.argv[1:]:
         json.dump({"head": sh(["git", "-C", "/repo", "rev-parse", "HEAD"])[1].strip(), "results": results}, open(os.path.join(SEEDS, "RESULTS.json"), "w"), indent=1)
